@@ -75,7 +75,7 @@ class Dict(AbstractSpace[OrderedDict[str, Any], None]):
         return f"Dict({', '.join(f'{key}: {repr(space)}' for key, space in self.spaces.items())})"
 
     def __hash__(self) -> int:
-        return hash(self.spaces.items())
+        return hash(tuple(self.spaces.items()))
 
     def flatten_sample(self, sample: OrderedDict[str, Any]) -> Float[Array, " size"]:
         parts = [
